@@ -533,6 +533,16 @@ def alloc_modes(rep, cfg, pid):
     nonconst = [a for a in allocs if not (a[0].op == "variant" and a[0].args[0] == "Constant")]
     enf = [a for pc, kind, a, site in oc.effects if kind in ("enforce_equal", "cond_enforce_equal", "decode_gadget")]
     rep.ob("ALLOC/R/Constant", not nonconst and not enf, "Constant mode must allocate no variables and emit no constraints; non-constant allocations %d, constraints %d" % (len(nonconst), len(enf)), where=cfg.where(p))
+    vc = ok_payload_any(oc.value)
+    inner_c = field(vc, "inner") if vc is not None else None
+    want_c = field(val, "inner")
+    okc = inner_c is want_c
+    if not okc and inner_c is not None and inner_c.op == "struct" and inner_c.args[0] == "TEAff":
+        co = dict(zip(inner_c.args[1], inner_c.args[2:]))
+        X, Y, Z = (field(want_c, k) for k in ("x", "y", "z"))
+        okc = co.get("x") in (mk("mul", X, mk("inv", Z)), mk("mul", mk("inv", Z), X)) and co.get("y") in (mk("mul", Y, mk("inv", Z)), mk("mul", mk("inv", Z), Y))
+    rep.ob("ALLOC/R/Constant:value", okc, "the constant must denote the given element: its point is the native point handed to the (normalising) AffineVar allocation, or the affine "
+           "coordinates X/Z, Y/Z - not the raw projective X, Y; got %s" % (Tm.show(inner_c, maxdepth=5) if inner_c is not None else None), where=cfg.where(p))
     # Witness: returns the *decoded* variable; the witnessed coordinates flow only into the equality constraint
     ow = res["Witness"]
     v = ok_payload_any(ow.value)
@@ -552,8 +562,11 @@ def alloc_modes(rep, cfg, pid):
             if is_alloc(t) and t.args[1].args[0] == "affine":
                 uses_ok = False
         eq_ok = any(c[0].op == "decaf_eq" and (c[0].args[0] is v or c[0].args[1] is v) for c in cee)
-        okw = good_hint and uses_ok and len(decs) == 1
-        why = "returned variable = decompress(witness(encode(value))): %s; prover-supplied coordinates do not flow into the result: %s; decode gadget invoked once: %s; decaf-equality against the offered coordinates present: %s" % (
+        # the coordinates the equality constraint checks must be the CALLER's point: witnessing something derived from the decoding instead makes
+        # the constraint compare the decoding with itself, and an invalid point whose encoding happens to decode is accepted
+        offered_ok = all(a[2] is field(val, "inner") for a in pvars)
+        okw = good_hint and uses_ok and len(decs) == 1 and offered_ok
+        why = ("the extra witness point is the caller's own point: %s; " % offered_ok) + "returned variable = decompress(witness(encode(value))): %s; prover-supplied coordinates do not flow into the result: %s; decode gadget invoked once: %s; decaf-equality against the offered coordinates present: %s" % (
             good_hint, uses_ok, len(decs) == 1, eq_ok)
         if not eq_ok:
             rep.info("Witness mode: no decaf-equality constraint ties the offered coordinates P_var to the decoded variable; P_var would be unconstrained junk (the output stays sound)")
@@ -572,6 +585,48 @@ def alloc_modes(rep, cfg, pid):
     rep.ob("ALLOC/R/inner-Input-unreachable", len(pan) >= 1 and set(callers) <= set(outer) | {x for x in cfg.prog.bodies if "AllocVar<ark_curve::element::affine::AffinePoint" in x and "inner::ElementVar" in x},
            "inner new_variable's `unreachable!()` for Input: callers %s must dispatch Input before delegating" % [norm_path(c) for c in callers], where=cfg.where(p), nontrivial=False)
     return res
+
+
+def shape_reporter(rep, cfg):
+    """CountConstraints::num_constraints_and_instance_variables is the library's own statement of a circuit's shape: it has to synthesise the way
+    the Groth16 generator does (optimisation goal Constraints, setup mode, finalised) and report (constraints, instance variables) in that order"""
+    ps = [p for p in cfg.prog.bodies if p.endswith("CountConstraints::num_constraints_and_instance_variables")]
+    if not ps:
+        return 0
+    b = cfg.prog.bodies[ps[0]]
+    ev = []
+
+    def walk(n):
+        if isinstance(n, dict):
+            if n.get("k") == "MethodCall":
+                cal = (n.get("callee") or {}).get("path", "")
+                args = [((a.get("r") or {}).get("path") or ((a.get("r") or {}).get("callee") or {}).get("path") or "") for a in n.get("args", []) if isinstance(a, dict)]
+                ev.append((cal.split("::")[-1], cal, args))
+            for v_ in n.values():
+                walk(v_)
+        elif isinstance(n, list):
+            for v_ in n:
+                walk(v_)
+    walk(b.get("body"))
+    names = [e[0] for e in ev]
+
+    def at(nm):
+        return names.index(nm) if names.count(nm) == 1 else None
+    g, m, gen, fin, nc, ni = (at(x) for x in ("set_optimization_goal", "set_mode", "generate_constraints", "finalize", "num_constraints", "num_instance_variables"))
+    probs = []
+    if None in (g, m, gen, fin, nc, ni):
+        probs.append("expected exactly one call each of set_optimization_goal, set_mode, generate_constraints, finalize, num_constraints, num_instance_variables; found %s" % names)
+    else:
+        if not (ev[g][2] and ev[g][2][0].endswith("OptimizationGoal::Constraints")):
+            probs.append("optimisation goal must be OptimizationGoal::Constraints (what the Groth16 generator uses); got %s" % ev[g][2])
+        if not (ev[m][2] and ev[m][2][0].endswith("SynthesisMode::Setup")):
+            probs.append("synthesis mode must be Setup; got %s" % ev[m][2])
+        if not (g < gen and m < gen):
+            probs.append("goal and mode must be set before the circuit is synthesised")
+        if not (gen < fin < nc < ni):
+            probs.append("the system must be finalised after synthesis and before the counts are read, and the result is (constraints, instance variables) in this order")
+    rep.ob("SHAPE/R/CountConstraints", not probs, "the shape reporter must describe the circuit the Groth16 keys are made for: %s" % ("; ".join(probs) or "ok"), where=cfg.where(ps[0]), nontrivial=False)
+    return 1
 
 
 def ok_payload_any(v):
